@@ -199,3 +199,6 @@ def run(ctx, led):
              "edge (DOMINATED)", m2, ctx)
     run_rule(led, "M3", "an interrupted API call leaves the solver Ready at decision level 0 "
              "(TYPESTATE, shared with C10-T2/T3)", m3, ctx)
+    from . import shared as _shared, C03 as _C03
+    run_rule(led, "M4", "an interrupted assumption solve leaves no assumptions behind: every solve overwrites them (shared with C05-A3)", _shared.assumptions_overwritten, ctx)
+    run_rule(led, "M5", "the solution iterator remembers across calls that a solution was seen, so a resumed final call reports Finished, not Unsatisfiable (shared with C03-B3)", _C03.b3, ctx)
